@@ -1,5 +1,6 @@
 (* C13 — obligations re-decided by the kernel over the constants generated from the repo under
-   test on this run (Gen/C13Tables.v). *)
+   test on this run (Gen/C13Tables.v).  One file per obligation group (Inst*.v), so that one broken
+   obligation does not mark the others. *)
 From Coq Require Import ZArith List Bool.
 From S2T Require Import Lib.PyStr C13.Model C13.Corr Gen.C13Tables.
 Import ListNotations.
@@ -9,37 +10,3 @@ Open Scope N_scope.
 Theorem C13_live_tags_match : forallb (fun p => str_eqb (fst p) (snd p)) live_tags = true.
 Proof. vm_compute. reflexivity. Qed.
 Print Assumptions C13_live_tags_match.
-
-Definition sorted_mem_eq (a b : list str) : bool :=
-  forallb (fun x => mem_str x b) a && forallb (fun x => mem_str x a) b.
-
-(* REMOVE_TAGS of html_extractor and epub_extractor are the model's set *)
-Theorem C13_remove_tags_match :
-  sorted_mem_eq live_remove_tags_html REMOVE_TAGS && sorted_mem_eq live_remove_tags_epub REMOVE_TAGS = true.
-Proof. vm_compute. reflexivity. Qed.
-Print Assumptions C13_remove_tags_match.
-
-(* removable void elements of the EPUB state machine (nothing is skipped after them) *)
-Theorem C13_void_remove_tags_match : sorted_mem_eq live_void_remove_tags_epub VOID_REMOVE_TAGS = true.
-Proof. vm_compute. reflexivity. Qed.
-Print Assumptions C13_void_remove_tags_match.
-
-(* the skip set handed to element_text by the three ODF extractors is the one the correspondence uses *)
-Theorem C13_odf_skip_tags_match :
-  sorted_mem_eq live_ods_skip_tags ODF_SKIP && sorted_mem_eq live_odt_skip_tags ODT_SKIP
-  && sorted_mem_eq live_odp_skip_tags ODF_SKIP = true.
-Proof. vm_compute. reflexivity. Qed.
-Print Assumptions C13_odf_skip_tags_match.
-
-(* the closed refutation witnesses use ws_ascii: it is exactly Python's whitespace set below 128
-   except the four separators 0x1c-0x1f, none of which occurs in a witness *)
-Fixpoint upto (n : nat) : list N := match n with O => [] | S k => upto k ++ [N.of_nat k] end.
-Theorem C13_ws_ascii_agrees :
-  forallb (fun c => Bool.eqb (py_is_ws c) (ws_ascii c || ((28 <=? c) && (c <=? 31)))) (upto 128) = true.
-Proof. vm_compute. reflexivity. Qed.
-Print Assumptions C13_ws_ascii_agrees.
-
-(* TEXT_SPAN (used by the renderers for runs) is not skipped by element_text *)
-Theorem C13_span_not_skipped : mem_str TEXT_SPAN ODF_SKIP || mem_str TEXT_SPAN ODT_SKIP = false.
-Proof. vm_compute. reflexivity. Qed.
-Print Assumptions C13_span_not_skipped.
